@@ -427,11 +427,11 @@ def pair_cases(tier, seed, shard):
                 yield enc(rnd.getrandbits(1), ea, rnd.choice(sq + (rm(),))), enc(rnd.getrandbits(1), eb, rnd.choice(sq + (rm(),))), 'product_edge'
     # F. random: small gaps with random mantissas, then fully random normal operands
     # (the random generator is salted with the shard, so every shard draws its own share directly)
-    for _ in range(8000 if quick else 640000 // nsh):
+    for _ in range(8000 if quick else 1920000 // nsh):
         ea = rnd.randint(1, 254)
         eb = min(254, max(1, ea + rnd.randint(-27, 27)))
         yield enc(rnd.getrandbits(1), ea, rm()), enc(rnd.getrandbits(1), eb, rm()), 'random_small_gap'
-    for _ in range(8000 if quick else 480000 // nsh):
+    for _ in range(8000 if quick else 1440000 // nsh):
         yield enc(rnd.getrandbits(1), rnd.randint(1, 254), rm()), enc(rnd.getrandbits(1), rnd.randint(1, 254), rm()), 'random'
 
 
